@@ -1,8 +1,10 @@
 package mon
 
 import (
+	"bytes"
 	"fmt"
 	"math"
+	"strconv"
 	"strings"
 
 	geom "github.com/twpayne/go-geom"
@@ -579,7 +581,32 @@ func c06Mutate(c *fw.Ctx, idx int) {
 	s := []byte(st.Spell(g))
 	alphabet := "()(), ,  \n\tEMPTYZMzm0123456789.-+eE" + "POINTLINESTRINGPOLYGONMULTIGEOMETRYCOLLECTION" + "\x00\xff\x80\xa0\x85;#\"'"
 	class := "mutation"
-	switch r.Intn(5) {
+	switch r.Intn(7) {
+	case 5, 6:
+		// long runs of one byte (blanks, newlines, digits, brackets, letters)
+		// before, after or inside a text that may also be cut short: error
+		// positions far from the start of a line, far from its end, at the very
+		// end of a long blank tail, on a later line
+		class = "padding"
+		if r.Bool() {
+			s = s[:r.Intn(len(s)+1)]
+		}
+		k := r.Range(1, 3)
+		for i := 0; i < k; i++ {
+			const fills = " \t\n\r 0(A)  ,"
+			fill := fills[r.Intn(len(fills))]
+			run := bytes.Repeat([]byte{fill}, []int{29, 30, 31, 32, 33, 59, 60, 61, 62, 100, 257}[r.Intn(11)]+r.Intn(2))
+			var p int
+			switch r.Intn(3) {
+			case 0:
+				p = 0
+			case 1:
+				p = len(s)
+			default:
+				p = r.Intn(len(s) + 1)
+			}
+			s = append(s[:p:p], append(run, s[p:]...)...)
+		}
 	case 0, 1:
 		k := r.Range(1, 4)
 		for i := 0; i < k && len(s) > 0; i++ {
@@ -616,6 +643,107 @@ func c06Mutate(c *fw.Ctx, idx int) {
 	c06Check(c, string(s), class, "")
 }
 
+// c06Literal spells one number the way the WKT lexer's number alphabet allows.
+func c06Literal(r *fw.Rand) string {
+	digits := func(n int, first bool) string {
+		b := make([]byte, n)
+		for i := range b {
+			b[i] = byte('0' + r.Intn(10))
+		}
+		if first && n > 0 && b[0] == '0' && r.Chance(3, 4) {
+			b[0] = byte('1' + r.Intn(9))
+		}
+		if n > 0 && r.Chance(1, 6) {
+			// all nines / a one followed by zeros: the ends of a digit count
+			for i := range b {
+				b[i] = '9'
+			}
+			if r.Bool() {
+				for i := range b {
+					b[i] = '0'
+				}
+				b[0] = '1'
+			}
+		}
+		return string(b)
+	}
+	sign := []string{"", "", "-", "-", "+"}[r.Intn(5)]
+	var lit string
+	switch r.Intn(6) {
+	case 0, 1: // integers of 1..25 digits, most often around the widths of the integer types
+		n := []int{1, 2, 5, 9, 10, 11, 15, 16, 17, 18, 19, 19, 19, 20, 20, 21, 22, 25}[r.Intn(18)]
+		lit = digits(n, true)
+		if r.Chance(1, 8) {
+			lit = []string{"9223372036854775807", "9223372036854775808", "9223372036854775809", "18446744073709551615", "18446744073709551616", "4294967295", "4294967296", "2147483647", "2147483648", "9007199254740993", "9999999999999999999", "9500000000000000000"}[r.Intn(12)]
+		}
+	case 2: // decimals
+		lit = digits(r.Range(0, 20), true) + "." + digits(r.Range(0, 25), false)
+	case 3: // exponent forms
+		m := digits(r.Range(1, 18), true)
+		if r.Bool() {
+			m += "." + digits(r.Range(0, 18), false)
+		}
+		e := []string{"e", "E"}[r.Intn(2)] + []string{"", "+", "-"}[r.Intn(3)] + fmt.Sprint(r.Range(0, 30))
+		if r.Chance(1, 5) {
+			e = []string{"e", "E"}[r.Intn(2)] + []string{"", "-"}[r.Intn(2)] + fmt.Sprint(r.Range(280, 330))
+		}
+		lit = m + e
+	case 4: // leading zeros
+		lit = strings.Repeat("0", r.Range(1, 25)) + digits(r.Range(1, 19), true)
+	default: // a decimal spelling of an edge float
+		f := gen.Float(r, gen.IntEdge)
+		sign = ""
+		lit = strconv.FormatFloat(f, []byte{'f', 'e', 'g'}[r.Intn(3)], -1, 64)
+	}
+	return sign + lit
+}
+
+// (v) number literals: whatever spelling of a number the parser accepts must
+// denote the float64 nearest to the decimal value written
+func c06Numbers(c *fw.Ctx, idx int) {
+	r := c.R
+	n := r.Range(2, 4)
+	lits := make([]string, n)
+	for i := range lits {
+		lits[i] = c06Literal(r)
+	}
+	kw := []string{"POINT", "POINT Z", "POINT ZM"}[n-2]
+	if n == 3 && r.Bool() {
+		kw = "POINT M"
+	}
+	s := kw + " (" + strings.Join(lits, " ") + ")"
+	c06Check(c, s, "number-literals", "")
+	var t geom.T
+	var err error
+	if c.Guard("panic", func() { t, err = wkt.Unmarshal(s) }) {
+		return
+	}
+	if err != nil || t == nil {
+		c.Count("number_literals_rejected")
+		return
+	}
+	flat := t.FlatCoords()
+	if len(flat) != n {
+		c.Fail("wrong-arity", "%q parsed to %d ordinates", s, len(flat))
+		return
+	}
+	for i, l := range lits {
+		want, _, perr := ref.ParseDecimal(l)
+		if perr != nil {
+			c.Count("number_literal_without_reference_value")
+			continue
+		}
+		c.Count("number_literals_compared")
+		if len(strings.TrimLeft(l, "+-0")) >= 19 && !strings.ContainsAny(l, ".eE") {
+			c.Count("number_literals_of_19_or_more_digits")
+		}
+		if math.Float64bits(flat[i]) != math.Float64bits(want) && !(flat[i] == 0 && want == 0) {
+			c.Fail("wrong-number", "the literal %q was read as %s, the float64 nearest to its decimal value is %s", l, fw.F(flat[i]), fw.F(want))
+			return
+		}
+	}
+}
+
 func c06RawReplay(c *fw.Ctx, raw []byte) { c06Check(c, string(raw), "replay", "") }
 
 func init() {
@@ -633,6 +761,7 @@ func init() {
 			{Name: "tokens-5", Quick: 0, Thorough: pow(n, 5), Run: c06Seq(5), Exhaustive: "every token sequence of length 5"},
 			{Name: "grammar", Quick: 150000, Thorough: 10000000, Run: c06Grammar},
 			{Name: "one-defect", Quick: 40000, Thorough: 2000000, Run: c06MustReject},
+			{Name: "number-literals", Quick: 60000, Thorough: 3000000, Run: c06Numbers},
 			{Name: "mutations", Quick: 100000, Thorough: 8000000, Run: c06Mutate, RawReplay: c06RawReplay},
 		},
 		Extra: fuzzExtra("C06", 3000000),
